@@ -85,6 +85,8 @@ type Table struct {
 	// counters
 	Gets, Puts, Queries, Inconsistent int
 	Region                           string
+	// FailReads / FailWrites > 0 make that many following reads / writes fail with a service error
+	FailReads, FailWrites int
 }
 
 // NewTable creates an empty table called name.
@@ -172,6 +174,10 @@ func (t *Table) Get(table string, k map[string]AV, proj string, names map[string
 	t.mu.Lock()
 	defer t.mu.Unlock()
 	t.Gets++
+	if t.FailReads > 0 {
+		t.FailReads--
+		return nil, &Error{"InternalServerError", "injected read failure"}
+	}
 	if err := t.checkTable(table); err != nil {
 		return nil, err
 	}
@@ -188,6 +194,10 @@ func (t *Table) Put(table string, item map[string]AV, cond string, names map[str
 	t.mu.Lock()
 	defer t.mu.Unlock()
 	t.Puts++
+	if t.FailWrites > 0 {
+		t.FailWrites--
+		return &Error{"InternalServerError", "injected write failure"}
+	}
 	if err := t.checkTable(table); err != nil {
 		return err
 	}
@@ -267,6 +277,10 @@ func (t *Table) Query(table, keyCond string, names map[string]string, values map
 	t.mu.Lock()
 	defer t.mu.Unlock()
 	t.Queries++
+	if t.FailReads > 0 {
+		t.FailReads--
+		return nil, &Error{"InternalServerError", "injected read failure"}
+	}
 	if err := t.checkTable(table); err != nil {
 		return nil, err
 	}
@@ -317,6 +331,9 @@ func (t *Table) Query(table, keyCond string, names map[string]string, values map
 	}
 	return out, nil
 }
+
+// SetFail arms read and write failures.
+func (t *Table) SetFail(reads, writes int) { t.mu.Lock(); t.FailReads, t.FailWrites = reads, writes; t.mu.Unlock() }
 
 // Items returns a deep copy of the current items keyed "id|created".
 func (t *Table) Items() map[string]map[string]AV {
